@@ -52,7 +52,8 @@ def gen(rng, i, tier):
             else:
                 c["limits"] = {"tp": [-40.0, G.sig(rng.uniform(20.0, 60.0))]}
     return {"spec": spec, "energy": rng.random() < 0.3, "ta": rng.choice([25.0, 25.0, 70.0]),
-            "phase_arg": rng.random() < 0.3}
+            "phase_arg": rng.random() < 0.3, "history": rng.choice(_rows.HISTORIES), "hseed": rng.randrange(1 << 30),
+            "tags": rng.random() < 0.2}
 
 
 def directed():
@@ -73,11 +74,11 @@ def toks(cell):
 
 def run(ctx, case):
     spec = case["spec"]
-    st, sysobj = H.try_build(spec)
-    if st != "ok":
-        raise RuntimeError("spec rejected: %s" % H.exc_sig(sysobj))
+    spec, sysobj = _rows.build_with_history(ctx, spec, case.get("history", "fresh"), case.get("hseed", 0))
     phases = list((spec.get("phases") or {}).keys())
     kw = dict(energy=case["energy"], ta=case["ta"])
+    if case.get("tags"):
+        kw["tags"] = {"rev": "C"}
     if case["phase_arg"] and phases:
         kw["phase"] = phases[len(phases) // 2]
     st, df = H.solve(sysobj, **kw)
